@@ -476,6 +476,18 @@ def micro_programs():
         ("stack-bottom-eq", ["txn RekeyTo", "=="]),
     ):
         emit(f"bool/{combo}", lines)
+    # one field admitted as the creator OR a literal OR a second literal (symbolic and literal entries in ONE record)
+    for fld in ADDR_FIELDS:
+        a = [f"txn {fld}"]
+        cr, l0, l1 = ["global CreatorAddress"], [f"addr {ADDRS[0]}"], [f"addr {ADDRS[1]}"]
+        for combo, lines in (
+            ("creator-or-lit", a + cr + ["=="] + a + l0 + ["==", "||"]),
+            ("lit-or-creator", a + l0 + ["=="] + cr + a + ["==", "||"]),
+            ("creator-or-lit-or-lit", a + cr + ["=="] + a + l0 + ["==", "||"] + a + l1 + ["==", "||"]),
+            ("lit-or-lit", a + l0 + ["=="] + a + l1 + ["==", "||"]),
+            ("neither-creator-nor-lit", a + cr + ["!="] + a + l0 + ["!=", "&&", "!"]),
+        ):
+            emit(f"addrmix/{fld}/{combo}", lines)
     return out
 
 
